@@ -52,7 +52,49 @@ fn verif_dir() -> String {
     std::env::var("VERIF_DIR").unwrap_or_else(|_| "/verif".to_string())
 }
 
+/// replay the committed regression cases of this property first (seconds)
+fn regressions(id: &'static str, tier: Tier, seed: u64) -> Vec<(String, String)> {
+    let dir = format!("{}/regressions", verif_dir());
+    let mut bad = Vec::new();
+    let mut files: Vec<_> = match std::fs::read_dir(&dir) {
+        Ok(rd) => rd.filter_map(|e| e.ok()).map(|e| e.path()).collect(),
+        Err(_) => return bad,
+    };
+    files.sort();
+    for f in files {
+        let name = f.file_name().and_then(|n| n.to_str()).unwrap_or("").to_string();
+        if !name.starts_with(&format!("{}-", id)) || !name.ends_with(".json") {
+            continue;
+        }
+        let text = match std::fs::read_to_string(&f) {
+            Ok(t) => t,
+            Err(_) => continue,
+        };
+        let v: serde_json::Value = match serde_json::from_str(&text) {
+            Ok(v) => v,
+            Err(_) => continue,
+        };
+        let campaign = v["campaign"].as_str().unwrap_or("");
+        if let Ok(out) = props::replay(id, campaign, &v["case"], tier, seed) {
+            if let Err(reason) = out.verdict {
+                bad.push((f.display().to_string(), reason));
+            }
+        }
+    }
+    bad
+}
+
 fn run(id: &'static str, tier: Tier, seed: u64) -> i32 {
+    let reg = regressions(id, tier, seed);
+    if !reg.is_empty() {
+        // still write evidence from the campaigns below? A regression failing is a
+        // violation with its own replay file; report and stop.
+        for (path, reason) in &reg {
+            println!("VIOLATION property={} replay={}", id, path);
+            println!("  campaign: regression replay");
+            println!("  reason:   {}", reason);
+        }
+    }
     let ev = match props::run(id, tier, seed) {
         Some(ev) => ev,
         None => {
@@ -85,6 +127,9 @@ fn run(id: &'static str, tier: Tier, seed: u64) -> i32 {
             println!("  reason:   {}", v.reason);
         }
         let _ = std::io::stdout().flush();
+        return 1;
+    }
+    if !reg.is_empty() {
         return 1;
     }
     if let Some(why) = util::inconclusive() {
